@@ -1,5 +1,5 @@
 /* vsched scenario family: work-unit life cycle (C01 C03 C06 C11 C12 C13).
- * usage: sc_units <seed> <mode> <log> <nes> <nunits> <steps> <poolkind 0 fifo|1 fifo_wait|2 randws> <sched 0 basic|1 basic_wait|2 prio|3 randws>
+ * usage: sc_units <seed> <mode> <log> <nes> <nunits> <steps> <poolkind 0 fifo|1 fifo_wait|2 randws> <sched 0 basic|1 basic_wait|2 prio|3 randws|4 user-defined batch scheduler>
  *                 [topo 0 classic | 1 early stream join | 2 shared pool in front of each secondary stream's own pool, early stream join]
  *                 [recycle 0|1: the secondary streams' pools are user-owned (not automatic) and have already served a stream
  *                  that was joined and freed before the streams of this run are created over them]
@@ -668,6 +668,66 @@ static void *resumer(void *p)
     return NULL;
 }
 
+/* sched kind 4: a user-defined "batch" main scheduler.  Its run() returns after a few units even when its pools are not
+ * empty and relies on the runtime calling run() again (thread_main_sched_func re-enters it unless a finish request is
+ * pending AND no unit is left) */
+static int us_init(ABT_sched sched, ABT_sched_config config)
+{
+    (void)sched;
+    (void)config;
+    return ABT_SUCCESS;
+}
+static void us_run(ABT_sched sched)
+{
+    int np = 0;
+    ABT_pool pools[4];
+    ABT_OK(ABT_sched_get_num_pools(sched, &np));
+    if (np > 4)
+        np = 4;
+    ABT_OK(ABT_sched_get_pools(sched, np, 0, pools));
+    int ran = 0;
+    for (;;) {
+        int did = 0;
+        for (int i = 0; i < np && !did; i++) {
+            ABT_thread t = ABT_THREAD_NULL;
+            ABT_OK(ABT_pool_pop_thread(pools[i], &t));
+            if (t != ABT_THREAD_NULL) {
+                ABT_OK(ABT_self_schedule(t, ABT_POOL_NULL));
+                did = 1;
+                ran++;
+            }
+        }
+        if (ran >= 3)
+            return; /* end of this batch */
+        if (!did) {
+            ABT_bool stop = ABT_FALSE;
+            ABT_OK(ABT_xstream_check_events(sched));
+            ABT_OK(ABT_sched_has_to_stop(sched, &stop));
+            if (stop)
+                return;
+        }
+    }
+}
+static int us_free(ABT_sched sched)
+{
+    (void)sched;
+    return ABT_SUCCESS;
+}
+static void make_stream(ABT_sched_predef sk, int n, ABT_pool *pools, ABT_xstream *xs)
+{
+    if (schedkind != 4) {
+        ABT_OK(ABT_xstream_create_basic(sk, n, pools, ABT_SCHED_CONFIG_NULL, xs));
+        return;
+    }
+    ABT_sched_def def = { .type = ABT_SCHED_TYPE_ULT, .init = us_init, .run = us_run, .free = us_free, .get_migr_pool = NULL };
+    ABT_sched_config cfg;
+    ABT_sched sched;
+    ABT_OK(ABT_sched_config_create(&cfg, ABT_sched_config_automatic, ABT_TRUE, ABT_sched_config_var_end));
+    ABT_OK(ABT_sched_create(&def, n, pools, cfg, &sched));
+    ABT_OK(ABT_sched_config_free(&cfg));
+    ABT_OK(ABT_xstream_create(sched, xs));
+}
+
 /* ABT_xstream_join of stream x has returned: every unit that lived only in the pool that only this stream serves is done */
 static void check_stream_done(int x)
 {
@@ -733,7 +793,7 @@ int main(int argc, char **argv)
         if (recycle) {
             /* a first stream over this pool comes and goes: the pool's consumer count must be back to zero */
             ABT_xstream tmp;
-            ABT_OK(ABT_xstream_create_basic(sk, 1, &sc_pool[i], ABT_SCHED_CONFIG_NULL, &tmp));
+            make_stream(sk, 1, &sc_pool[i], &tmp);
             ABT_OK(ABT_xstream_join(tmp));
             ABT_OK(ABT_xstream_free(&tmp));
         }
@@ -747,9 +807,9 @@ int main(int argc, char **argv)
                 two[0] = sc_pool[i];
                 two[1] = sc_pool[shared_pool];
             }
-            ABT_OK(ABT_xstream_create_basic(sk, 2, two, ABT_SCHED_CONFIG_NULL, &sc_xs[i]));
+            make_stream(sk, 2, two, &sc_xs[i]);
         } else {
-            ABT_OK(ABT_xstream_create_basic(sk, 1, &sc_pool[i], ABT_SCHED_CONFIG_NULL, &sc_xs[i]));
+            make_stream(sk, 1, &sc_pool[i], &sc_xs[i]);
         }
         vsa_name_xstream(sc_xs[i], "X%d", i);
     }
